@@ -205,7 +205,7 @@ def run(chk):
                        '% is always written with blanks around it (lexically ambiguous with the %binary notation)']
     plan = [('core-all', 'TokCore', 5 if quick else 6, False), ('core-guided', 'TokCore', 7 if quick else 9, True),
             ('wide-guided', 'TokWide', 6 if quick else 7, True), ('mix-guided', 'TokMix', 5 if quick else 6, True),
-            ('wide-all', 'TokWide', 3 if quick else 4, False)]
+            ('wide-all', 'TokWide', 3 if quick else 4, False), ('mod-guided', 'TokMod', 7 if quick else 8, True)]
     MALFORMED = []
     OFFSETS = []
     for tag, toks, ml, guided in plan:
